@@ -11,6 +11,7 @@ package core
 import (
 	"fmt"
 	"math/rand"
+	"os"
 	"sort"
 	"strconv"
 	"strings"
@@ -244,6 +245,15 @@ func vtC01Dump(gqm *GroupQuotaManager, obs []int64) []int64 {
 			obs = append(obs, p, vtB(asg[p]))
 		}
 	}
+	// the root entry: not part of GetQuotaSummaries, read the way the elastic-quota controller reads it
+	if root, ok := gqm.GetQuotaSummary(extension.RootQuotaName, false); ok {
+		for _, rl := range []v1.ResourceList{root.Request, root.NonPreemptibleRequest, root.Used, root.NonPreemptibleUsed} {
+			c, m := vtC01V(rl)
+			obs = append(obs, c, m)
+		}
+	} else {
+		obs = append(obs, -1, -1, -1, -1, -1, -1, -1, -1)
+	}
 	return obs
 }
 
@@ -278,9 +288,29 @@ type vtC01Gen struct {
 	nops   int
 	deep   bool
 	scale  bool // min-quota scaling enabled: cluster total squeezes and runtime refreshes are generated
+	rootFinding bool // also generate tree rebuilds while system/default are max-limited
 	pods   map[int64]*vtC01GenPod
 	quotas map[int64]*vtC01GenQuota
 	big    bool
+}
+
+// rebuilding the tree while the system or the default quota asks for more than its max leaves a
+// phantom request in the root entry (findings/C01-root-reset.md); such histories are only generated
+// when VERIF_C01_ROOTFINDING is set.
+func (g *vtC01Gen) rebuildOK() bool {
+	if g.rootFinding {
+		return true
+	}
+	for _, name := range []string{extension.SystemQuotaName, extension.DefaultQuotaName} {
+		qi := g.gqm.GetQuotaInfoByName(name)
+		if qi == nil {
+			continue
+		}
+		if ok, _ := quotav1.LessThanOrEqual(qi.GetRequest(), qi.GetMax()); !ok {
+			return false
+		}
+	}
+	return true
 }
 
 func (g *vtC01Gen) emit(rec ...int64) {
@@ -445,6 +475,9 @@ func (g *vtC01Gen) changeQuota() bool {
 		}
 	default: // only the weight, or nothing at all
 	}
+	if old := g.quotas[id]; old.parent == q.parent && (old.lend != q.lend || old.isParent != q.isParent) && !g.rebuildOK() {
+		return false // would rebuild the tree (resetQuotaNoLock)
+	}
 	g.emitQuota(id, &q)
 	return true
 }
@@ -557,7 +590,7 @@ func (g *vtC01Gen) squeeze() {
 
 func vtC01Gen_(r *rand.Rand, i int) (string, []int64) {
 	style := []string{"small", "small", "big", "deep", "deep", "scale", "scale"}[r.Intn(7)]
-	g := &vtC01Gen{r: r, pods: map[int64]*vtC01GenPod{}, quotas: map[int64]*vtC01GenQuota{}, big: style == "big", deep: style == "deep" || style == "scale", scale: style == "scale"}
+	g := &vtC01Gen{r: r, pods: map[int64]*vtC01GenPod{}, quotas: map[int64]*vtC01GenQuota{}, big: style == "big", deep: style == "deep" || style == "scale", scale: style == "scale", rootFinding: os.Getenv("VERIF_C01_ROOTFINDING") != ""}
 	hdr := []int64{1 << 50, 1 << 50, 1 << 50, 1 << 50, 0}
 	if r.Intn(3) == 0 { // a default quota that limits
 		hdr[2], hdr[3] = r.Int63n(20), r.Int63n(20)
@@ -588,7 +621,9 @@ func vtC01Gen_(r *rand.Rand, i int) (string, []int64) {
 		case x < 36:
 			g.deleteQuota()
 		case x < 38:
-			g.emit(9)
+			if g.rebuildOK() {
+				g.emit(9)
+			}
 		case g.scale:
 			g.squeeze()
 		default:
